@@ -10,11 +10,11 @@ Definition cfg_wf (c : cfg) : Prop :=
 (* ---- how the single-stream operations change the stream list ---- *)
 Lemma part_finalize_spec p0 tracks stracks d :
   let p := fst (part_finalize p0 tracks stracks d) in
-  p = p0 \/ (p_id p = p_id p0 /\ p_start p = p_start p0 /\ p_end p = d /\ p_indep p = p_indep p0).
+  p_id p = p_id p0 /\ p_start p = p_start p0 /\ p_end p = d /\ p_indep p = p_indep p0.
 Proof.
-  unfold part_finalize. destruct stracks as [|ti _]; [left; reflexivity|].
-  destruct (nth_error tracks ti) as [t|]; [|left; reflexivity].
-  destruct (tk_samples t); right; simpl; auto.
+  unfold part_finalize. destruct stracks as [|ti _]; [simpl; auto|].
+  destruct (nth_error tracks ti) as [t|]; [|simpl; auto].
+  destruct (tk_samples t); simpl; auto.
 Qed.
 
 Lemma stream_rotateParts_streams m si d cn :
@@ -106,13 +106,14 @@ Proof.
 Qed.
 
 Lemma PW_targets c s t pt :
+  st_leading s = false ->
   PW c s ->
   PW c (st_with s {| x_nextSeg := st_nextSeg s; x_nextPart := st_nextPart s; x_segments := st_segments s;
                      x_open := st_open s; x_openpart := st_openpart s; x_init := st_init s;
                      x_delcount := st_delcount s; x_target := t;
                      x_parttarget := pt; x_evicted := st_evicted s |}).
 Proof.
-  intros HP Hwf. destruct (HP Hwf) as [H1 H2 H3 H4 H5 H6 H7 H8 H9].
+  intros _ HP Hwf. destruct (HP Hwf) as [H1 H2 H3 H4 H5 H6 H7 H8 H9].
   constructor; unfold published in *; cbn [st_with st_segments st_evicted st_delcount st_nextSeg st_open]; auto.
 Qed.
 
@@ -122,13 +123,13 @@ Proof. intros HP Hwf. apply WInv_createFirst. now apply HP. Qed.
 Theorem window_inv_step m o :
   G PW m -> G PW (fst (mux_step m o)).
 Proof.
-  apply G_mux_step; auto using PW_create, PW_rotp, PW_rots, PW_open, PW_targets.
+  apply G_mux_step; auto using PW_create, PW_rots, PW_open, PW_targets; intros; apply PW_rotp; assumption.
 Qed.
 
 Theorem window_inv_run ops m :
   G PW m -> G PW (mux_run m ops).
 Proof.
-  apply G_mux_run; auto using PW_create, PW_rotp, PW_rots, PW_open, PW_targets.
+  apply G_mux_run; auto using PW_create, PW_rots, PW_open, PW_targets; intros; apply PW_rotp; assumption.
 Qed.
 
 (* ---- the initial state ---- *)
